@@ -64,8 +64,10 @@ m6  checkRuleHashes first comparison: `h == hashStr` -> strings.EqualFold       
     24 disagreements
 m7  buildTarget: storeInCache moved before calculateAndCheckRuleHash                     exit 1: VIOLATION failed-output-stored-in-cache, 25 disagreements
 h1  harmless: locals renamed in UnprefixedHashes and checkRuleHashes, independent statements reordered   exit 0, facts identical
-m13 ruleHash: the HashCheckers block removed again (= revert of fix 9c3fe2b)              exit 1: see below
-m14 filegroup branch back to `if changed {check}` (= revert of fix 2c4e62b)               exit 1: see below
+m13 ruleHash: the HashCheckers block removed again (= revert of fix 9c3fe2b)              exit 1: VIOLATION hashcheckers-change-not-reverified
+    (failing input = corpus fixed-hashcheckers-…ops), 30/32 obligations (C35_facts_ok, C35_key_covers_checkers), correspondence agrees
+m14 filegroup branch back to `if changed {check}` (= revert of fix 2c4e62b)               exit 1: VIOLATION filegroup-unchanged-skips-hash-check
+    (8 oracle failures incl. corpus fixed-filegroup-…ops), 29/32 obligations, correspondence agrees
 m12 (after /repo fix 656076b) UnprefixedHashes back to `hashes := target.Hashes[:]`: fact unprefixAliases=true, FactsOK false; the in-process
     oracle class unprefixed-hashes-rewrites-declared-list names the input (facts-only + oracle by construction, not dry-run end to end).
 facts-only (extractor run on the mutated copy, FactsOK no longer true): m8 `combine := len(outputs) > 1`, m9 file names always written
